@@ -394,6 +394,106 @@ mod parsing_ops {
     }
 }
 
+// ---------------------------------------------------------------------------
+// emulated-field chains with selects: the limb-bound bookkeeping (which decides whether later
+// operations lay out a normalisation) must not look at the values of condition bits
+
+mod ff_chains {
+    use num_bigint::BigUint;
+    use serde::{Deserialize, Serialize};
+    use vp_circ::{
+        e2::{self, Op},
+        ops_foreign::{gen_chain, model, BlsBase, EmField, FOp, Prog, SecpBase, SecpScalar, Step, Term},
+    };
+    use vpcore::{CaseResult, Failure, SplitMix, Verdict};
+
+    #[derive(Clone, Debug, Serialize, Deserialize)]
+    pub struct ChainCase {
+        pub field: u8,
+        pub seed: u64,
+    }
+
+    fn program<Fd: EmField>(rng: &mut SplitMix) -> Prog {
+        let md = model::<Fd>();
+        let mut p = gen_chain(&md, rng);
+        p.n_bits = 2;
+        // selects between earlier values (typically one lazily bounded, one well formed), in both
+        // operand orders, followed by operations that normalise their operands
+        let n_vals = p.n_field + p.steps.len();
+        let last = n_vals - 1;
+        let other = rng.below(p.n_field as u64) as usize;
+        let (a, b) = if rng.below(2) == 0 { (last, other) } else { (other, last) };
+        p.steps.push(Step::Select(0, a, b));
+        let s1 = n_vals;
+        p.steps.push(Step::Select(1, s1, rng.below(n_vals as u64) as usize));
+        let s2 = n_vals + 1;
+        match rng.below(3) {
+            0 => p.steps.push(Step::Mul(s2, other)),
+            1 => p.steps.push(Step::Add(s2, s1)),
+            _ => {}
+        }
+        let end = p.n_field + p.steps.len() - 1;
+        p.term = match rng.below(4) {
+            0 => Term::Expose(end),
+            1 => Term::IsZero(end),
+            2 => Term::IsEq(end, other),
+            _ => Term::ToBits(end, None, true),
+        };
+        p
+    }
+
+    fn go<Fd: EmField>(c: &ChainCase) -> CaseResult {
+        let mut rng = SplitMix(c.seed);
+        let prog = program::<Fd>(&mut rng);
+        let md = model::<Fd>();
+        let op = FOp::<Fd>::new(prog.clone());
+        let fields: Vec<BigUint> = (0..prog.n_field).map(|_| BigUint::from_bytes_le(&rng.bytes(48)) % &md.m).collect();
+        let mut first: Option<e2::Structure> = None;
+        let mut used = 0;
+        for bits in 0..4u32 {
+            let mut x = fields.clone();
+            x.push(BigUint::from(bits & 1));
+            x.push(BigUint::from(bits >> 1));
+            if op.reference(&x).is_none() {
+                continue; // e.g. a division by zero on this branch
+            }
+            let s = e2::structure_of(&op, &x).map_err(|e| Failure::new(format!("{}:cannot-synthesise", op.name()), e))?;
+            used += 1;
+            match &first {
+                None => first = Some(s),
+                Some(f) => {
+                    let what = if f.k != s.k {
+                        "k"
+                    } else if f.selectors != s.selectors {
+                        "selectors"
+                    } else if f.fixed != s.fixed {
+                        "fixed-columns"
+                    } else if f.permutation != s.permutation {
+                        "copy-constraints"
+                    } else {
+                        ""
+                    };
+                    if !what.is_empty() {
+                        return Err(Failure::new(
+                            format!("emulated-field-chain:structure-depends-on-witness:{what}"),
+                            format!("condition bits {bits:02b} versus the first pattern give different {what} ({f:?} vs {s:?}) for {}", op.name()),
+                        ));
+                    }
+                }
+            }
+        }
+        Ok(Verdict::of(used >= 2, format!("bit-patterns:{used}")).with(format!("modulus-bits:{}", md.m.bits())))
+    }
+
+    pub fn run(c: &ChainCase) -> CaseResult {
+        match c.field % 3 {
+            0 => go::<SecpScalar>(c),
+            1 => go::<SecpBase>(c),
+            _ => go::<BlsBase>(c),
+        }
+    }
+}
+
 fn main() {
     vpcore::main("C09", "exploration", (3600, 21600), |p| {
         p.assume("witnesses are the representative in-domain tuples provided by the op catalogues of C04/C05/C06/C07 (zero/non-zero, equal/unequal, carries, identity points, different actual lengths and fillers for variable-length gadgets)");
@@ -409,6 +509,17 @@ fn main() {
                 16,
                 || (zk::strategy(), any::<u64>()).prop_map(|(case, seed)| zk::ZCase { case, seed }).boxed(),
                 zk::run,
+            );
+        }
+        {
+            use proptest::prelude::*;
+            p.sub(
+                "emulated-field.chains.structure",
+                "generated chains of emulated-field operations (lazy additions, constants, products) extended by two selects between a late and an early value (both operand orders) and a normalising consumer, synthesised with one set of field inputs and all four values of the two condition bits: identical k / fixed columns / selectors / copy constraints; non-trivial = at least two bit patterns in the domain",
+                p.tier.pick(96, 2000),
+                16,
+                || (0u8..3, any::<u64>()).prop_map(|(field, seed)| ff_chains::ChainCase { field, seed }).boxed(),
+                ff_chains::run,
             );
         }
         let mut items = vec![];
